@@ -17,6 +17,7 @@ func init() {
 		Explanation: "Ignored names/clients and anonymisation. Decided: (D1) record only after the decision: the query log's Add and the statistics' Update each have one caller in the DNS path, reached only on the true edge of shouldLog / shouldCountStat, which are true only via ShouldLog / ShouldCount, which are true only after the client flag was consulted and with a negative ignore-list lookup; the identifier list given to both decisions always contains the client address; " +
 			"(D2) anonymise once, before both: the loaded anonymiser is applied to the address slice before both decisions and both records, the address handed to the log is that same slice, and the address string used for the client lookups and the statistics is computed from it after the call; (D3) the read side re-checks the ignore list and the client flag before returning a file entry and applies the anonymiser it is given before serialising; (D4) both configuration handlers install the anonymiser exactly when anonymisation is switched on; " +
 			"(D5) mask widths: the anonymiser zeroes the constant regions [2:4) of the 4-byte form obtained from To4 and [6:16) of the 16-byte form. " +
+			"(D6) the client cache of a log search, which memoises the per-client ignore decision, is a map made by that search and never stored in a field or package variable. " +
 			"Not decided: ignore-pattern semantics, case and trailing-dot normalisation, entries recorded before an ignore-list change.",
 		RuleText:    "Who-may-call enumeration, CFG edge guards, value identity and must-pass ordering on SSA, constant slice bounds.",
 		Assumptions: []string{"aghnet.IPMut stores/loads the function atomically", "net.IP.To4 returns the 4-byte form sharing memory with the original (stdlib)"},
